@@ -38,7 +38,8 @@ def spec_for(nmax):
         spec += [('foo%d' % i, 'int', None), ('foo2a%d' % i, 'int', None), ('foo2b%d' % i, 'int', None)]
     spec += [('b', 'int', '0 <= b <= 2'), ('tg', 'int', '0 <= tg <= 2'), ('viavar', 'bool', None),
              ('split', 'int', '0 <= split <= 2'), ('ma', 'int', '0 <= ma <= 1'), ('mb', 'int', '0 <= mb <= 2'),
-             ('ca', 'int', None), ('cb', 'int', None), ('tm', 'int', '0 <= tm <= 2')]
+             ('ca', 'int', None), ('cb', 'int', None), ('tm', 'int', '0 <= tm <= 2'), ('bag', 'int', '0 <= bag <= 3'),
+             ('e0', 'int', None), ('e1', 'int', None)]
     return spec
 
 
@@ -116,7 +117,16 @@ def make_body_a(nmax, info):
                 rT = ('f', 'f', tuple(rargs))
             else:
                 T, rT = yp.atom('x'), ('a', 'x')
-            bname, bargs, rbargs = 'findall', [T, goal, Lv], [rT, rG, rL]
+            # the bag may arrive already bound to a closed list (of 0, 1 or 2 symbolic integers)
+            bagk = g('bag')
+            Lreal, Lref = Lv, rL
+            if bagk == 1:
+                Lreal, Lref = yp.makelist([]), mklist([])
+            elif bagk == 2:
+                Lreal, Lref = yp.makelist([g('e0')]), mklist([('c', g('e0'))])
+            elif bagk == 3:
+                Lreal, Lref = yp.makelist([g('e0'), g('e1')]), mklist([('c', g('e0')), ('c', g('e1'))])
+            bname, bargs, rbargs = 'findall', [T, goal, Lreal], [rT, rG, Lref]
         watch = [v for v, _ in qvars] + [Lv]
         rwatch = [r for _, r in qvars] + [rL]
         try:
@@ -159,7 +169,7 @@ def make_body_a(nmax, info):
             if v._is_bound:
                 ch.note(info, 'variable still bound after %s', bname)
                 return ch.VIOLATED
-        return ch.HOLDS_NONTRIVIAL if (exp or b == 1) else ch.HOLDS_TRIVIAL
+        return ch.HOLDS_NONTRIVIAL if (exp or b != 0) else ch.HOLDS_TRIVIAL
     return spec, body
 
 
@@ -253,6 +263,10 @@ def units(tier, seed):
             parts = [{}]
             if tn == 'foo2':
                 parts = [{'viavar': vv, 'ma': ma} for vv in (False, True) for ma in (0, 1)]
+            if bn == 'findall':
+                parts = [dict(p, bag=k) for p in parts for k in ((0, 2) if (tier == 'quick' and tn == 'foo2') else (0, 1, 2, 3))]
+            else:
+                parts = [dict(p, bag=0) for p in parts]
             for fx in parts:
                 tag = ''.join('.%s%d' % (k, int(v)) for k, v in sorted(fx.items()))
                 us.append(dict(id='a.%s.%s%s' % (bn, tn, tag), kind='a', nmax=nmax, fixed=dict({'b': b, 'tg': tg}, **fx), ob='C09.a',
